@@ -140,7 +140,12 @@ C04Fails(c) ==
          <<"output-count-differs", Len(res.o) = Len(orig.o)>>,
          <<"truth-table-differs", WFFails(res) # {} \/ res.i # orig.i \/ TT(res) = TT(orig) \/ explained>>,
          <<"more-non-trivial-gates-than-before",
-             Cardinality({l \in Labels(res) : res.g[l].t \notin C04Trivial})
-               <= Cardinality({l \in Labels(orig) : orig.g[l].t \notin C04Trivial})>>
+             \/ Cardinality({l \in Labels(res) : res.g[l].t \notin C04Trivial})
+                  <= Cardinality({l \in Labels(orig) : orig.g[l].t \notin C04Trivial})
+             \* named deviation Dev_NegationsTradedForGates (known finding): a cone with NOT gates is
+             \* replaced by as many gates of other types - not more gates in total, but more
+             \* non-trivial ones
+             \/ (DevP = "Dev_NegationsTradedForGates" /\
+                 Cardinality(NonInputSet(res)) <= Cardinality(NonInputSet(orig)))>>
        >>)
 =============================================================================
